@@ -41,7 +41,9 @@ func scenC18(r *Run, job *Job) {
 	}
 	if t.Chance(1, 4) {
 		// the restore is descheduled right where it installs the new credentials
-		r.AddHold("credentialsServiceImpl).UpdateCredentials", 1+t.Draw(2), 1+t.Draw(3))
+		// ... or at one of its other steps (installing the restore renderer, looking at / releasing the runtime)
+		site := []string{"credentialsServiceImpl).UpdateCredentials", "credentialsServiceImpl).UpdateCredentials", "SetRenderer<lambda/rapid.handleRestore", "lambda/rapid.handleRestore", "AwaitRuntimeReadyWithDeadline<lambda/rapid.handleRestore"}[t.Draw(5)]
+		r.AddHold(site, 1+t.Draw(2), 1+t.Draw(3))
 	}
 	w := r.NewWorld(WorldCfg{TimeoutSec: timeoutSec, InitCaching: true, Env: env}, job.Seed)
 	e := w.NewEngine()
@@ -239,6 +241,11 @@ func scenC18(r *Run, job *Job) {
 			continue
 		}
 		r.Probe("restore:" + mode)
+		// the runtime parked in its restore poll is released by this restore so that it runs its hook: the poll is
+		// answered 200 with an empty body (a runtime that is told anything else does not run its hook)
+		if restorePoll.Done && restorePoll.Err == nil {
+			r.Check(restorePoll.Status == 200 && len(restorePoll.Body) == 0, "C18.restore-poll-answer", "restore #%d released the runtime's restore poll with %d %s, expected 200 and an empty body", rs.n, restorePoll.Status, summarize(restorePoll.Body))
+		}
 		switch mode {
 		case "hook-ok":
 			r.Check(rs.err == nil, "C18.restore-failed", "restore #%d failed (%v) although the hook completed in time", rs.n, rs.err)
